@@ -82,6 +82,7 @@ def cases(tier):
 class Recorder:
     def __init__(self):
         self.calls = {"L": [], "pi": [], "q": []}
+        self.memo = {}
 
 
 def _make(case, rec):
@@ -99,16 +100,27 @@ def _make(case, rec):
     mu = lo + w * np.array(case["mu"])
     sig = w * np.array(case["sig"])
 
+    # the callables memoise per batch (as an expensive user likelihood may): a repeated batch gets the SAME array object back
+    def _memo(name, x, compute):
+        key = (name, str(x.dtype), tuple(x.shape), env.to_np(x).tobytes())
+        if key not in rec.memo:
+            rec.memo[key] = compute()
+        return rec.memo[key]
+
     def log_likelihood(samples):
         x = samples.x
-        val = -0.5 * xp.sum(((x - xp.asarray(mu, dtype=x.dtype)) / xp.asarray(sig, dtype=x.dtype)) ** 2, axis=-1)
+        val = _memo("L", x, lambda: -0.5 * xp.sum(((x - xp.asarray(mu, dtype=x.dtype)) / xp.asarray(sig, dtype=x.dtype)) ** 2, axis=-1))
         rec.calls["L"].append((env.to_np(x).astype(np.float64), env.to_np(val).astype(np.float64)))
         return val
 
     def log_prior(samples):
         x = samples.x
-        inside = xp.all((x >= xp.asarray(lo, dtype=x.dtype)) & (x <= xp.asarray(hi, dtype=x.dtype)), axis=-1)
-        val = xp.where(inside, xp.asarray(-float(np.log(w).sum()), dtype=x.dtype), xp.asarray(-np.inf, dtype=x.dtype))
+
+        def compute():
+            inside = xp.all((x >= xp.asarray(lo, dtype=x.dtype)) & (x <= xp.asarray(hi, dtype=x.dtype)), axis=-1)
+            return xp.where(inside, xp.asarray(-float(np.log(w).sum()), dtype=x.dtype), xp.asarray(-np.inf, dtype=x.dtype))
+
+        val = _memo("pi", x, compute)
         rec.calls["pi"].append((env.to_np(x).astype(np.float64), env.to_np(val).astype(np.float64)))
         return val
 
@@ -313,6 +325,13 @@ def run_case(case, ctx):
                                              f"{z_after[j].tolist()} (the kernel continues from a point whose value it was never given)", case,
                  sampler=case["sampler"], ns=case["ns"], pre=case["pre"])
     special = _check_batch(case, ctx, sampler, z_used, val, beta, rec, lo, hi, is_smc)
+    # the same points evaluated again (kernels re-evaluate their ensemble): the callables hand back the arrays they returned before
+    val_b = sampler.log_prob(z_in, beta) if is_smc else sampler.log_prob(z_in)
+    a1, a2 = env.to_np(val).astype(np.float64), env.to_np(val_b).astype(np.float64)
+    if a1.shape != a2.shape or not np.array_equal(a1, a2, equal_nan=True):
+        j = int(np.argmax(~((a1 == a2) | (np.isnan(a1) & np.isnan(a2))))) if a1.shape == a2.shape else 0
+        ctx.fail("re-evaluation-differs", f"evaluating the target twice at the same points gives {a1.reshape(-1)[j]!r} then {a2.reshape(-1)[j]!r}: "
+                                          f"an array returned by a user callable was modified in place", case, sampler=case["sampler"], ns=case["ns"])
     if special:
         labels.append("zero-prior-or-nan-point")
     labels.append("beta=1" if beta == 1.0 else "beta<1")
